@@ -228,7 +228,7 @@ def c20_programs(tier, seed, rnd):
              ("effects", A_EFFECTS, 6 if q else 7, 600 if q else 8000),
              ("loops", A_LOOPS, 6 if q else 7, 500 if q else 8000),
              ("nest", A_NEST, 8 if q else 9, 600 if q else 6000),
-             ("degen", A_DEGEN, 8 if q else 9, 12000 if q else 150000),
+             ("degen", A_DEGEN, 8 if q else 9, 9000 if q else 100000),
              ("uninit", A_UNINIT, 6 if q else 7, 800 if q else 10000),
              ("initarm", A_INITARM, 9 if q else 10, 5000 if q else 60000)]
     progs, results = [], []
